@@ -9,10 +9,10 @@ Import ListNotations.
 Open Scope Z_scope.
 
 (* ------------------------------------------------------------------ column references of the own level only *)
-Lemma own_outer_cols : forall e, own_outer e = false -> cols_ok (fun l _ _ => l = O) e.
+Lemma own_outer_cols : forall e, has_sub e = false -> own_outer e = false -> cols_ok (fun l _ _ => l = O) e.
 Proof.
-  induction e; cbn [own_outer cols_ok]; intro H; auto;
-    try (apply orb_false_iff in H; destruct H as [H1 H2]; split; auto).
+  induction e; cbn [has_sub own_outer cols_ok]; intros Hs H; auto; try discriminate;
+    try (apply orb_false_iff in H; destruct H as [H1 H2]; apply orb_false_iff in Hs; destruct Hs as [Hs1 Hs2]; split; auto).
   apply negb_false_iff in H. apply Nat.eqb_eq in H. exact H.
 Qed.
 Lemma cols_ok_impl : forall (P Q : nat -> nat -> bool -> Prop) e,
@@ -59,7 +59,7 @@ Proof.
     + intros r b Hin Hb. destruct (Hrows r Hin) as [Hpl _].
       apply (ipass_agree db (r :: [l])); auto.
       * apply has_sub_no_inex; exact Hhs.
-      * eapply cols_ok_impl; [|apply own_outer_cols; exact Hoo]. intros l0 i0 q0 Hl0. cbv beta in Hl0. subst l0. apply look_own_agrees_inner. exact Hpl.
+      * eapply cols_ok_impl; [|apply own_outer_cols; [exact Hhs|exact Hoo]]. intros l0 i0 q0 Hl0. cbv beta in Hl0. subst l0. apply look_own_agrees_inner. exact Hpl.
       * apply scal_agrees_nil. apply has_sub_scalars. exact Hhs.
     + intros r o Hin Ho. eapply sel_items_plain; eauto.
     + exact Hsel.
@@ -146,7 +146,7 @@ Section NoErr.
         * intros r0 b Hin0 Hb. destruct (db_wf_row widths db k2 T rw r0 Hwf HT Hrw Hin0) as [Hpl0 _].
           apply (ipass_agree db (r0 :: [r])); auto.
           -- apply has_sub_no_inex; exact Hhs.
-          -- eapply cols_ok_impl; [|apply own_outer_cols; exact Hoo]. intros l0 i0 q0 Hl0. cbv beta in Hl0. subst l0. apply look_own_agrees_inner. exact Hpl0.
+          -- eapply cols_ok_impl; [|apply own_outer_cols; [exact Hhs|exact Hoo]]. intros l0 i0 q0 Hl0. cbv beta in Hl0. subst l0. apply look_own_agrees_inner. exact Hpl0.
           -- apply scal_agrees_nil. apply has_sub_scalars. exact Hhs.
         * intros r0 o Hin0 Ho. eapply sel_items_plain; eauto.
         * exact Hs.
